@@ -1407,8 +1407,11 @@ func (x *Exec) do1(line string) (res string, leanLine string) {
 		return "ok", line
 	case "getprop":
 		return showVal(x.owner(toks[1]).GetProperty(parseKey(toks[2]))), line
-	case "chainlen":
-		return strconv.Itoa(x.chainLen(toks[1])), line
+	case "chainlen": // chainlen <owner> <bound>: at most <bound> links? (read from %#v: an unreadable format counts as 0)
+		if x.chainLen(toks[1]) <= atoi(toks[2]) {
+			return "le", line
+		}
+		return "gt", line
 	case "regcb": // regcb T owner when target cb
 		t := idOf(toks[1])
 		var cb tabular.PropertyCallback
